@@ -363,7 +363,7 @@ BinaryEqualFailure::BinaryEqualFailure(UtestShell* test, const char* fileName, s
 	if ((expected) && (actual))
 	{
 		size_t failStart;
-		for (failStart = 0; actual[failStart] == expected[failStart]; failStart++)
+		for (failStart = 0; failStart < size && actual[failStart] == expected[failStart]; failStart++)
 			;
 		message_ += createDifferenceAtPosString(actualHex, (failStart * 3 + 1), failStart);
 	}
